@@ -3,21 +3,22 @@
 import sys, json, os, shutil, re
 prop, k, det = sys.argv[1], sys.argv[2], sys.argv[3]
 needs = " ".join(sys.argv[4:])
-src = f"/tmp/wtout/{prop}/m{k}"
-dst = f"/verif/seeded/{prop}-m{k}"
+pre = os.environ.get("WAVE", "")          # e.g. WAVE=w3- for the third wave
+src = f"/tmp/wtout/{pre}{prop}/m{k}"
+dst = f"/verif/seeded/{prop}-{pre.replace('-','')}m{k}"
 if os.path.exists(dst): shutil.rmtree(dst)
 os.makedirs(dst)
 shutil.copy(f"{src}/patch.diff", dst)
 shutil.copytree(f"{src}/demo", f"{dst}/demo")
 if os.path.exists(f"{src}/README.md"): shutil.copy(f"{src}/README.md", dst)
-log = open(f"/tmp/wtout/{prop}/verify_m{k}.log").read() if os.path.exists(f"/tmp/wtout/{prop}/verify_m{k}.log") else ""
+log = open(f"{os.path.dirname(src)}/verify_m{k}.log").read() if os.path.exists(f"{os.path.dirname(src)}/verify_m{k}.log") else ""
 ex = dict(re.findall(r"(\w+_exit)=(\d+)", log))
 base = re.findall(r"baseline: .*", log)
 files = re.findall(r"^\+\+\+ b/(.*)$", open(f"{src}/patch.diff").read(), re.M)
 meta = {
  "property": prop, "files_changed": files, "needs_to_manifest": needs,
  "source": "independent sub-agent given only the property text and a scratch worktree",
- "confirmed_by_me": {"worktree": f"/tmp/wt/{prop} (scratch, removed)", "command": f"tools/verify_mutant.sh {prop} {k}",
+ "confirmed_by_me": {"worktree": f"/tmp/wt/{prop} (scratch, removed)", "command": f"tools/verify_mutant.sh {prop} {k} {pre}",
    "demo_on_clean_tree_exit": int(ex.get("clean_demo_exit", -1)), "patch_applies_exit": int(ex.get("apply_exit", -1)),
    "demo_on_changed_tree_exit": int(ex.get("mutated_demo_exit", -1)), "existing_suite": base[-1] if base else "?"},
  "checks_run": f"tools/run_mutant.sh seeded/{prop}-m{k}/patch.diff <check ids> (git apply on /repo, ./check.sh <id> quick, git checkout)",
